@@ -1333,8 +1333,13 @@ func (i *InvoiceRegistry) notifyExitHopHtlcLocked(
 		// we can now add it to our invoice expiry watcher. We do not
 		// add invoices before they are fully accepted, because it is
 		// possible that we MppTimeout the htlcs, and then our relevant
-		// expiry height could change.
-		if res.outcome == resultAccepted {
+		// expiry height could change. A duplicate htlc that is held on
+		// an already accepted invoice may expire earlier than the htlcs
+		// the invoice was added with, so the invoice is added again
+		// with its new lowest expiry height.
+		if res.outcome == resultAccepted ||
+			res.outcome == resultDuplicateToAccepted {
+
 			invoiceToExpire = makeInvoiceExpiry(ctx.hash, invoice)
 		}
 
